@@ -1,5 +1,6 @@
 """C03 - every outbound payment reaches a truthful terminal outcome (structural part)."""
 from engine import *
+import provenance
 
 OP = 'lightning::ln::outbound_payment::OutboundPayments::'
 POP = 'lightning::ln::outbound_payment::PendingOutboundPayment::'
@@ -395,4 +396,5 @@ RULES = [
 	('03.m', 'stale-manager restart fails back every outbound HTLC the channel holds (inflight_htlc_sources unfiltered)', r03m),
 	('03.n', 'late counterparty-commitment update: only HTLCs in no known commitment are failed back', r03n),
 	('03.j', 'failures / forwards / finalized claims parked behind a monitor update are all returned when it completes, at every exit', r03j),
+	('03.p', 'same-name field transfer: structs carrying this property\'s quantities are filled from the same-named field or a reviewed alias (rules/provenance.py)', lambda F: provenance.for_property(F, 'C03', '03.p')),
 ]
